@@ -146,7 +146,7 @@ def once(e10, e20, e21, td0, td1, td2, x):
     to subprocesses - every layer is either run here or handed over, never both, never twice, never dropped."""
     global LAST
     from harness import c01
-    ok = c01.stack(e10, e20, e21, True, True, True, False, False, False, td0, td1, td2, x, False, False)
+    ok = c01.stack(e10, e20, e21, True, True, True, False, False, False, td0, td1, td2, x, False, False, False)
     LAST = ('once',) + tuple(c01.LAST)
     return ok
 
